@@ -41,26 +41,35 @@ def new(cfg, seed):
 
 
 class Prepared:
-    """a history in which HourlyModel objects are constructed first and used later (settings objects are state)"""
+    """a history in which model objects are constructed first and used later, or used more than once
+    (settings objects and the model object's own prior state are state)"""
 
     def __init__(self):
-        self.ops, self.objs = [], []
+        self.ops, self.objs = [], []       # objs[k] = (family, cfg, seed, index within its model-side list)
+        self.nh = self.nd = 0
 
-    def new(self, seed, cfg="default"):
-        self.ops.append(new(cfg, seed))
-        self.objs.append((cfg, seed))
+    def new(self, seed=None, cfg="default", fam="hourly"):
+        self.ops.append({"op": "new", "fam": fam, "cfg": cfg, "seed": seed})
+        if fam == "hourly":
+            self.objs.append((fam, cfg, seed, self.nh))
+            self.nh += 1
+        else:
+            self.objs.append((fam, cfg, None, self.nd))
+            self.nd += 1
         return len(self.objs) - 1
 
     def fit(self, k, ds):
-        cfg, seed = self.objs[k]
-        self.ops.append({"op": "fitobj", "obj": k, "ds": ds, "fam": "hourly", "cfg": cfg, "seed": seed})
+        fam, cfg, seed, mi = self.objs[k]
+        self.ops.append({"op": "fitobj", "obj": k, "mobj": mi, "ds": ds, "fam": fam, "cfg": cfg, "seed": seed})
 
     def tojson(self, k):
-        self.ops.append({"op": "tojson", "obj": k})
+        self.ops.append({"op": "tojson", "obj": k, "mobj": self.objs[k][3]})
 
     def fromjson(self, k):
-        self.ops.append({"op": "fromjson", "obj": k})
-        self.objs.append(self.objs[k])
+        fam, cfg, seed, mi = self.objs[k]
+        self.ops.append({"op": "fromjson", "obj": k, "mobj": mi})
+        self.objs.append((fam, cfg, seed, self.nh))
+        self.nh += 1
         return len(self.objs) - 1
 
     def immediate(self, op):
@@ -211,7 +220,31 @@ def build_jobs(run, recl_default):
     p.tojson(u)                                       # to_json of an UNSEEDED fitted model re-draws its seed
     p.fit(c, B)
     job("prepared-interleaved", p.ops)
+    # (vii) RE-USING ONE MODEL OBJECT.  refit-same-object: fit(d) twice on one object; refit-after-other: fit(A) then fit(B)
+    #       on one object, B = the "other building" (+25 F, 3 x usage; data set number + 1_000_000).  Every fit must equal
+    #       the fit of a fresh object, which the reference history does.
+    OTHER = 1000000
+    p = Prepared()
+    for fam, ds, cfg, z in (("daily", dsd[0], "default", None), ("billing", dsb[0], "default", None),
+                            ("hourly", A, "default", sd), ("hourly", B, "adaptive", sd), ("hourly", A, "randsel", sd)):
+        k = p.new(z, cfg, fam)
+        p.fit(k, ds), p.fit(k, ds)
+    job("refit-same-object", p.ops)
+    p = Prepared()
+    fresh_others = []
+    for fam, ds, cfg, z in (("daily", dsd[0], "default", None), ("billing", dsb[0], "default", None),
+                            ("hourly", A, "default", sd), ("hourly", B, "adaptive", sd), ("daily", dsd[1], "legacy", None)):
+        k = p.new(z, cfg, fam)
+        p.fit(k, ds), p.fit(k, ds + OTHER)
+        if fam == "daily" and cfg == "default":
+            p.fit(k, ds)                                   # ... and back again
+        fresh_others.append(fit(fam, ds + OTHER, cfg, z))
+        if cfg == "legacy":
+            fresh_others.append(fit(fam, ds, cfg, z))
+    job("refit-after-other", p.ops, threads=1)
+    jobs[0]["ops"] = jobs[0]["ops"] + fresh_others
     if thorough:
+        job("refit-after-other", p.ops, threads=8)
         for j in range(4):
             p = Prepared()
             seeds = [sd, sd + 1, sd + 2, None, drawn]
@@ -424,17 +457,21 @@ def coq_op(op, recl_default):
         return "(FitHourly %s %s %s)" % (zlit(ds), c, "None" if seed is None else "(Some %s)" % zlit(seed))
     if op["op"] == "predict":
         return "(Predict %d)" % op["ref"]
+    if op["op"] == "new" and op.get("fam", "hourly") != "hourly":
+        return "(NewDB %s %s)" % ({"daily": "Daily", "billing": "Billing"}[op["fam"]], zlit(CFG_ID[op["cfg"]]))
+    if op["op"] == "fitobj" and op.get("fam", "hourly") != "hourly":
+        return "(FitDB %d %s)" % (op["mobj"], zlit(op["ds"]))
     if op["op"] == "new":
         cfg = op["cfg"]
         c = "{| h_id := %s; h_recluster := %d; h_silhouette := %s |}" % (
             zlit(CFG_ID[cfg]), 1 if cfg == "recluster1" else recl_default, coq_bool(cfg == "silhouette"))
         return "(NewHourly %s %s)" % (c, "None" if op["seed"] is None else "(Some %s)" % zlit(op["seed"]))
     if op["op"] == "fitobj":
-        return "(FitObj %d %s)" % (op["obj"], zlit(op["ds"]))
+        return "(FitObj %d %s)" % (op["mobj"], zlit(op["ds"]))
     if op["op"] == "tojson":
-        return "(ToJson %d)" % op["obj"]
+        return "(ToJson %d)" % op["mobj"]
     if op["op"] == "fromjson":
-        return "(FromJson %d)" % op["obj"]
+        return "(FromJson %d)" % op["mobj"]
     if op["op"] == "rng":
         # the worker does np.random.seed(k) and then, when n > 0, np.random.random(n): two model operations
         return None
